@@ -4,29 +4,36 @@ from vlib import common as C
 from vlib.diff import Case, differential, run_batch, san_site
 
 LEVEL = "proof"
-MODELLED_FUNCS = {'src/json/iwjser.c': ['_jbl_unescape_json_string', '_jbl_parse_json_key'], 'src/json/iwjson.c': ['_jbl_ptr_pool', 'iwjson_ftoa'], 'src/utils/iwconv.c': ['iwitoa', 'iwatoi2', 'iwafcmp', 'iwhex2bin'], 'src/re/vm.c': ['vm_add_thread', 'vm_run_with_threads']}
+MODELLED_FUNCS = {'src/json/iwjser.c': ['_jbl_unescape_json_string', '_jbl_parse_json_key'], 'src/json/iwjson.c': ['_jbl_ptr_pool', 'iwjson_ftoa'], 'src/utils/iwconv.c': ['iwitoa', 'iwatoi2', 'iwafcmp', 'iwhex2bin'], 'src/re/vm.c': ['vm_add_thread', 'vm_run_with_threads'], 'src/re/parse.c': ['push', 'consume', 'concatenate', 'parse_char_class', 'parse_interval', 'parse_context', 'estimate_nodes', 'parse_with_nodes', 'cregex_parse'], 'src/re/compile.c': ['count_instructions', 'node_is_anchored', 'compile_char_class', 'compile_context', 'compile_node_with_program', 'estimate_instructions', 'cregex_compile_node'], 'src/re/iwre.c': ['iwre_create']}
 MANIFEST = dict(
     level="proof",
     text=("PARTIAL. Proved (Lean 4, all inputs): bounds-instrumented executable models of _jbl_unescape_json_string (both passes), "
-          "_jbl_parse_json_key, _jbl_ptr_pool, iwjson_ftoa, iwitoa, iwatoi2, iwafcmp, iwhex2bin and of the regular-expression VM (vm_add_thread / "
-          "vm_run_with_threads) never touch a cell outside the buffers/arrays they are given and terminate (the models answer `oob` on any "
-          "out-of-range access; theorems say `oob` is unreachable: for every NUL-terminated byte string, resp. every well-formed program and "
-          "every text); the fill pass of the unescaper stores exactly the bytes the length pass announced; every jp->n[] slot of a parsed "
+          "_jbl_parse_json_key, _jbl_ptr_pool, iwjson_ftoa, iwitoa, iwatoi2, iwafcmp, iwhex2bin, of the regular-expression parser and compiler "
+          "(parse.c, compile.c, the guard of iwre_create) and of the regular-expression VM (vm_add_thread / vm_run_with_threads) never touch a cell "
+          "outside the buffers/arrays they are given and terminate (the models answer `oob` on any out-of-range access; theorems say `oob` is "
+          "unreachable: for every NUL-terminated byte string, resp. every pattern and every text). Regex front end: for every non-empty pattern the "
+          "parser never reads behind the terminator, never exhausts its node buffer of 2*strlen cells and nests parse_context at most strlen+2 deep "
+          "(reparse_safe); the compiler emits exactly count_instructions instructions, every jump/split target inside the program, 256-bit class "
+          "tables, a final MATCH (recompile_program_wf); parse -> compile -> run ends with a match result or a refused pattern for every pattern "
+          "within the stated size limits (digit runs <= 9, 2*(tree weight+6) <= INT_MAX) and otherwise at worst at one of the `int` overflows of the "
+          "open findings (compiled_program_safe, compiled_program_safe_within_limits) - the well-formedness hypothesis of revm_safe is discharged; "
+          "the fill pass of the unescaper stores exactly the bytes the length pass announced; every jp->n[] slot of a parsed "
           "pointer is assigned; determinism holds by construction of the models (pure functions) and the tie shows the real functions agree "
           "with them after an adversarial history (stale errno, recycled junk heap). The models are tied to the code by a differential run "
-          "of the real (incl. file-static) functions on exact-size heap buffers under ASan/UBSan against the compiled Lean definitions (VM: "
-          "on programs emitted by the real regex compiler plus well-formed damaged ones); escape table, struct sizes and buffer sizes are "
-          "regenerated from the source. EXPLORATION ONLY (no model, no theorem): the full JSON/JS parser, patch / merge-patch decoding, "
-          "jbn_at, the regular-expression parser and compiler, the ini parser, iwu_replace, iwpool_split_string, iwxstr_printf/iwpool_printf, "
+          "of the real (incl. file-static) functions on exact-size heap buffers under ASan/UBSan against the compiled Lean definitions (regex: "
+          "same pattern -> same tree dump, same program listing, same match result and captures; VM additionally on well-formed damaged programs); "
+          "escape table, struct sizes and buffer sizes are regenerated from the source. EXPLORATION ONLY (no model, no theorem): the full JSON/JS "
+          "parser, patch / merge-patch decoding, jbn_at, the ini parser, iwu_replace, iwpool_split_string, iwxstr_printf/iwpool_printf, "
           "iwstrtod and the iw_strto* wrappers are driven with structured + mutated + truncated inputs under ASan/UBSan with a watchdog; every "
           "input is run after an adversarial history and again in another order without it (a sample also in a fresh process) and the "
           "canonical outputs must be equal"),
     note=("trusted: Lean kernel, translator, harness/generator, gcc+ASan/UBSan, libc snprintf/strtoll; modelled not verified: the C control flow of "
-          "the functions named; not proved: that the regex compiler emits well-formed programs "
-          "(checked on every compiled program of the run), everything listed under EXPLORATION ONLY; lengths are assumed to fit `int` (< 2^31); "
+          "the functions named; not proved: everything listed under EXPLORATION ONLY; lengths are assumed to fit `int` (< 2^31); allocation failure "
+          "(malloc returning NULL for a huge program) is not modelled; the machine stack is not modelled: the theorems bound the recursion depth "
+          "(parser strlen+2, compiler = tree height <= 2*strlen+3, VM ninstructions+1), whether that fits the stack is finding C17-RE-DEPTH; "
           "null-pointer arithmetic in the length pass (d = NULL; ++d) is not flagged by gcc's sanitizers and is not modelled; three regex "
-          "defects stay open (unbounded repetition counts in parser and compiler, unbounded recursion depth) and are reported as KNOWN-FINDING; "
-          "the tree modelled is /repo plus the fix commits of branch fix-txt17"),
+          "defects stay open (unbounded repetition counts in parser and compiler: the model answers `ub` there, unbounded recursion depth) and are "
+          "reported as KNOWN-FINDING; the tree modelled is /repo plus the fix commits of branch fix-txt17"),
     technique="Lean 4 proof over bounds-instrumented executable models + differential correspondence; sanitizer/watchdog/history-independence exploration for the unmodelled rest")
 MODULE = "IwModel.Props.C17"
 THEOREMS = [
@@ -34,6 +41,8 @@ THEOREMS = [
     "IwModel.C17.unescape_cstring_safe", "IwModel.C17.parse_key_safe", "IwModel.C17.ptr_parse_safe", "IwModel.C17.ptr_parse_cstring_safe",
     "IwModel.C17.ptr_all_slots_assigned", "IwModel.C17.itoa_safe", "IwModel.C17.ftoa_safe", "IwModel.C17.ftoa_old_overrun", "IwModel.C17.atoi2_safe",
     "IwModel.C17.afcmp_safe", "IwModel.C17.hex2bin_safe", "IwModel.C17.revm_safe", "IwModel.C17.gen_side_conditions",
+    "IwModel.C17.reparse_safe", "IwModel.C17.reparse_empty_pattern_overruns", "IwModel.C17.recompile_program_wf", "IwModel.C17.compiled_program_safe",
+    "IwModel.C17.compiled_program_safe_within_limits", "IwModel.C17.reparse_tree_bounded", "IwModel.C17.refront_overflow_witnesses",
 ]
 
 H = lambda b: binascii.hexlify(bytes(b)).decode() or "-"
@@ -421,6 +430,181 @@ def case_hex(r):
             return "iwhex2bin(%r, max=%d) reports %s bytes" % (junk, jm, w[1])
         return None
     return Case("hex", ops, oracle)
+
+
+# ---------------------------------------------------------------- regex front end (modelled): parser + compiler
+
+def gen_front_regex(r, depth=0):
+    """pattern text aimed at the branches of parse.c / compile.c: every interval spelling (valid and not), classes with `]` first,
+    `^]`, escaped members, ranges with escaped end points, `-` in front of `]`, quantifiers where nothing can be quantified (start of
+    a group / branch), empty alternatives, nesting, anchors in odd places, lazy marks, stacked quantifiers, high bytes"""
+    parts = []
+    for _ in range(r.choice([1, 1, 2, 2, 3, 4, 6])):
+        k = r.randrange(16 if depth < 4 else 9)
+        if k < 3:
+            a = bytes([r.choice(b"abcxyz019 _-,}]")])
+        elif k == 3:
+            a = r.choice([b".", b"^", b"$", b"\\.", b"\\\\", b"\\(", b"\\)", b"\\[", b"\\{", b"\\|", b"\\*", b"\\a", b"\\]", bytes([r.choice([0x80, 0xc3, 0xe9, 0xff, 0x01, 0x7f])])])
+        elif k in (4, 5, 6):
+            items = []
+            for _ in range(r.randrange(0, 4)):
+                t = r.randrange(9)
+                if t == 0:
+                    lo = r.choice(b"a0A\x80\x01")
+                    items.append(bytes([lo]) + b"-" + bytes([min(255, lo + r.randrange(0, 40))]))
+                elif t == 1:
+                    items.append(b"\\" + bytes([r.choice(b"]\\-^a")]))
+                elif t == 2:
+                    items.append(bytes([r.choice([0x80, 0xc3, 0xff, 0x7f, 1])]))
+                elif t == 3:
+                    items.append(b"\\" + bytes([r.choice(b"a]")]) + b"-" + bytes([r.choice(b"z~\xff")]))     # escaped lower end
+                elif t == 4:
+                    items.append(r.choice([b"a-", b"-", b"--", b"a-\\", b"^", b"[", b"a-a", b"b-a", b"\xff-\x80", b"]-a", b"!-]"]))
+                else:
+                    items.append(bytes([r.choice(b"abcxyz019_ .-")]))
+            a = b"[" + (b"^" if r.random() < 0.3 else b"") + (b"]" if r.random() < 0.15 else b"") + b"".join(items) + (b"]" if r.random() < 0.93 else b"")
+        elif k == 7:
+            a = r.choice([b"|", b"||", b"()", b"(|)", b"(", b")", b"(*a)", b"|+", b"(?)", b"({1})", b"^*", b"$+", b"(^a|b$)"])
+        elif k in (8, 9, 10, 11):
+            a = b"(" + gen_front_regex(r, depth + 1) + b")"
+        elif k in (12, 13):
+            a = gen_front_regex(r, depth + 1) + b"|" + gen_front_regex(r, depth + 1)
+        else:
+            a = b"(" * r.randrange(1, 9) + bytes([r.choice(b"ab.")]) + b")" * r.randrange(1, 9)
+        q = r.randrange(10)
+        if q < 5:
+            n1, n2 = r.choice([0, 0, 1, 1, 2, 3, 7, 12]), r.choice([0, 1, 2, 3, 5, 9])
+            a += r.choice([b"?", b"*", b"+", b"{%d}" % n1, b"{%d,}" % n1, b"{,%d}" % n2, b"{%d,%d}" % (n1, n1 + n2), b"{%d,%d}" % (n1 + 1, n1), b"{", b"{}",
+                           b"{%d" % n1, b"{%d,%d" % (n1, n2), b"{a}", b"{,}", b"{ 1}", b"{1 }", b"{1,2,3}", b"{-1}", b"{01}", b"{00,002}", b"{1}{2}", b"*+", b"+*", b"??"])
+            if r.random() < 0.3:
+                a += b"?"
+        parts.append(a)
+    return b"".join(parts)
+
+
+def front_cost(p):
+    """rough upper estimate of the program size for a pattern text (product of all numbers in braces): patterns beyond the budget are
+    left to the fixed witnesses (the model has no allocation failure, the harness would need gigabytes)"""
+    cost = len(p) * 2 + 8
+    for m in re.finditer(rb"\d+", p):
+        if len(m.group()) >= 10:          # may leave `int` in parse_interval: open finding C17-RE-COUNT-PARSE, fixed witness only
+            return 10 ** 13
+        cost *= min(int(m.group()), 10 ** 9) + 2
+        if cost > 10 ** 12:
+            break
+    return cost
+
+
+def tree_count(toks):
+    """count_instructions over the prefix-notation dump printed by `reparse`; returns (count, anchored, rest)"""
+    t, rest = toks[0], toks[1:]
+    c = t[0]
+    if c == "E":
+        return 0, False, rest
+    if c in "CAKNZ":
+        return 1, False, rest
+    if c == "B":
+        return 1, True, rest
+    if c in ".|":
+        a, aa, rest = tree_count(rest)
+        b, ba, rest = tree_count(rest)
+        return (a + b, aa, rest) if c == "." else (2 + a + b, aa and ba, rest)
+    if c == "P":
+        a, aa, rest = tree_count(rest)
+        return 2 + a, aa, rest
+    if c == "Q":
+        nmin, nmax, _ = [int(x) for x in t[1:].split(",")]
+        a, aa, rest = tree_count(rest)
+        if nmax >= nmin:
+            return nmin * a + (nmax - nmin) * (a + 1), aa, rest
+        return 1 + (nmin * a if nmin else a + 1), aa, rest
+    raise ValueError("token " + t)
+
+
+def case_front(r):
+    k = r.randrange(20)
+    simple = vetted = False
+    if k < 9:
+        p = gen_front_regex(r)
+    elif k < 12:
+        p = gen_regex(r)
+    elif k < 15:
+        p, simple = gen_simple_regex(r)[0], True
+    elif k == 15:
+        vetted = True
+        p = r.choice([b"a", b"^a", b"a$", b"^$", b"(a|b)*c", b"(a?){3}b", b"a{0}", b"a{0}+", b"a{0}*", b"(a*)*", b"(|a)+", b"[\x80-\xff]+", b"\xff", b"(((a)))", b"a|", b"|a",
+                      b"()", b"|", b"||", b"a||", b"(|)", b"(a)(b)(c)(d)(e)(f)(g)(h)", b".*", b".*?x", b"[^x]$", b"x*$", b"(a+)+b", b"[]]", b"[^]]", b"[]-a]", b"[a-]",
+                      b"[\\]-a]", b"a{,3}", b"a{3,1}", b"a{2,}?b", b"x{1,2}{2}", b"a{2147483647", b"a{2147483647,", b"a{21}", b"(a{12}){12}", b"((((((((a))))))))",
+                      b"a{100}", b"(ab|c){0,40}", b"[a-z]{30}", b"a" * 300, b"(" * 40 + b"a" + b")" * 40, b"a|" * 60 + b"b", b"\\", b"[", b"[a", b"[\\", b"(a", b"a)"])
+    else:
+        p = gen_front_regex(r)
+    if k >= 16 or (r.random() < 0.15 and not vetted):
+        p = bytes(mutate(r, p))
+        simple = False
+    p = bytes(p)
+    if not vetted and (len(p) > 400 or front_cost(p) > 30000):
+        p = p[:12]
+        if front_cost(p) > 30000:
+            p = b"a{2,3}"
+        simple = False
+    nul = p.find(b"\0")
+    eff = p if nul < 0 else p[:nul]          # what the C functions see
+    txt = bytes(r.choice(b"abc") for _ in range(r.choice([0, 1, 2, 4, 8, 16]))) if simple or r.random() < 0.5 else \
+        bytes(r.choice(b"abcxyz01 _-.,}]\x80\xc3\xe9\xff\x01") for _ in range(r.choice([0, 1, 3, 8, 20])))
+    nm = r.choice([0, 2, 2, 4, 6, 16, 20, 3])
+    ops = ["reparse " + H(p), "recomp " + H(p), "research %d %s %s" % (nm, H(p), H(txt))]
+    try:
+        ref = re.compile(p, re.S) if simple else None
+    except re.error:
+        ref = None
+
+    def oracle(out, p=p, eff=eff, txt=txt, nm=nm, ref=ref):
+        w0, w1, w2 = out[0].split(), out[1].split(), out[2].split()
+        if w0[1] in ("ub", "oob", "fuel") or w1[1] in ("ub", "oob", "fuel") or w2[1] in ("ub", "oob", "fuel"):
+            return "model reports %s / %s / %s for pattern %r" % (w0[1], w1[1], w2[1], p)
+        if (w0[1] == "fail") != (w1[1] == "fail") or (w0[1] == "fail") != (w2[1] == "fail"):
+            return "parser and compiler disagree on accepting %r: %s / %s / %s" % (p, out[0][:60], out[1][:60], out[2][:60])
+        if w0[1] == "fail":
+            return None
+        size, toks = int(w0[2]), w0[3:]
+        if size > 2 * len(eff):
+            return "tree of %d nodes for a pattern of %d bytes: the node buffer has %d cells (%r)" % (size, len(eff), 2 * len(eff), p)
+        for t in toks:
+            if t[0] in "KN":
+                a, b = [int(x) for x in t[1:].split(":")]
+                if not (0 < a <= b < len(eff)) or eff[b:b + 1] != b"]":
+                    return "class node %s points outside the class text of %r" % (t, p)
+            if t[0] == "C" and not 0 < int(t[1:]) < 256:
+                return "character node %s in the tree of %r" % (t, p)
+        n, prog = int(w1[1]), w1[2:]
+        if len(toks) == size and size < 3000:
+            cnt, anch, rest = tree_count(toks)
+            if rest:
+                return "tree dump of %r has trailing tokens" % p
+            if n != cnt + (0 if anch else 3) + 3:
+                return "program of %d instructions for a tree that counts %d (+%d): estimate_instructions is not what compile_context emits (%r)" % (n, cnt, (0 if anch else 3) + 3, p)
+        if len(prog) == n:
+            if not prog_wf(prog) or prog[-1] != "M":
+                return "the compiler emitted a program that is not well-formed (jump target / successor outside the program, NUL character instruction, no final MATCH) for %r: %s" % (p, out[1][:300])
+            if any(t[0] in "KN" and len(t) != 65 for t in prog):
+                return "class table of the wrong size in the program of %r" % p
+        if w2[1] not in ("0", "1") or len(w2) != 2 + nm:
+            return "malformed match result for %r on %r: %s" % (p, txt, out[2][:100])
+        caps = [int(x) for x in w2[2:]]
+        if any(c < -1 or c > len(txt) for c in caps):
+            return "capture offset outside the text for %r on %r: %s" % (p, txt, out[2][:100])
+        if ref is not None:
+            m = ref.search(txt)
+            if (m is not None) != (w2[1] == "1"):
+                return "pattern %r on %r: VM says %s, reference says %s" % (p, txt, w2[1], "match" if m else "no match")
+            if m is not None:
+                exp = []
+                for g in range(0, min(nm // 2, ref.groups + 1)):
+                    exp += [m.start(g), m.end(g)]
+                if caps[:len(exp)] != exp:
+                    return "pattern %r on %r: captures %s, reference %s" % (p, txt, caps[:len(exp)], exp)
+        return None
+    return Case("front-ref" if ref is not None else "front", ops, oracle)
 
 
 # ---------------------------------------------------------------- regex VM (modelled): programs come from the real compiler
@@ -927,11 +1111,32 @@ def explore(ctx, h, drv, n_mod, n_exp, label, fresh=60):
     for c in mod[:3] + exp[:3]:
         ctx.sample(dict(kind=c.kind, ops=[o[:200] for o in c.ops[:3]]))
     mod += vm_cases(ctx, h, r, max(40, n_mod // 60), 6)
+    front = [case_front(r) for _ in range(n_mod // 3)]
+    for c in front[:3]:
+        ctx.sample(dict(kind=c.kind, ops=[o[:200] for o in c.ops[:3]]))
+    mod += front
     # run A: after an adversarial history; modelled ops are diffed against the Lean driver
     a_mod, a_exp = with_history(mod, r), with_history(exp, r)
     probs = differential(ctx, [h], [drv, "c17"] if drv else None, a_mod, timeout=900)
     probs += differential(ctx, [h], None, a_exp, timeout=900)
     report(ctx, probs)
+    for c in a_mod:                      # which parser / compiler branches the front-end cases reached
+        if c.kind.startswith("front") and c.impl and len(c.impl) == 4:
+            w = c.impl[1].split()
+            if w[1] != "ok":
+                ctx.hist("front:rejected")
+                continue
+            ctx.hist("front:accepted")
+            toks = w[3:]
+            for tag, pred in (("class", lambda t: t[0] == "K"), ("negated-class", lambda t: t[0] == "N"), ("alternation", lambda t: t == "|"),
+                              ("epsilon", lambda t: t == "E"), ("anchor", lambda t: t in ("B", "Z")), ("group", lambda t: t == "P"),
+                              ("unbounded", lambda t: t[0] == "Q" and ",-1," in t), ("counted", lambda t: t[0] == "Q" and ",-1," not in t and t[:5] != "Q0,1,"),
+                              ("lazy", lambda t: t[0] == "Q" and t.endswith(",0")), ("zero-count", lambda t: t[:5] == "Q0,0,"), ("high-byte", lambda t: t[0] == "C" and int(t[1:]) > 127)):
+                if any(pred(t) for t in toks):
+                    ctx.hist("front:" + tag)
+            n = c.impl[2].split()[1]
+            if n.isdigit():
+                ctx.hist("front:program<=16" if int(n) <= 16 else "front:program<=128" if int(n) <= 128 else "front:program>128")
     crashed = {id(c) for c, p in probs if p[0] == "crash"}
     # run B: the same inputs in another order, no perturbation; run F: a sample in a fresh process each
     allc = [(a, b) for a, b in zip(a_mod + a_exp, mod + exp) if id(a) not in crashed and a.impl is not None]
@@ -983,7 +1188,7 @@ def run(ctx):
     ctx.assumptions += ["buffer lengths fit `int` (< 2^31 bytes)",
                         "fraction parts compared by iwafcmp have at most 15 digits (long-double accumulation is then exact enough to agree with the exact model)",
                         "libc snprintf(\"%.8Lf\"/\"%.17Lg\") results are inputs of the ftoa model (computed by the generator with Python's exact formatting)",
-                        "regex repetition counts and pattern nesting are kept small in the random streams; the three open findings are exercised by fixed witnesses"]
+                        "regex repetition counts and pattern nesting are kept small in the random streams (estimated program size <= 30000 instructions: the model has no allocation failure); the three open findings are exercised by fixed witnesses"]
     ctx.translate()
     ok, drv_ok = ctx.prove(MODULE, THEOREMS)
     impl = C.build_impl("asan")
